@@ -10,6 +10,9 @@ pub fn check(sc: &Scenario, res: &RunResult) -> Vec<Violation> {
     let mut out = Vec::new();
     let k = &res.kernel;
     let faulted = !sc.faults.is_empty();
+    if k.budget_exhausted {
+        out.push(v("C17", "read-unbounded", format!("a remote read did not come back within {} simulated calls", k.seq)));
+    }
     for o in &res.mem_reads {
         let op = &o.op;
         let sname = NAMES[(op.strategy as usize).min(3)];
